@@ -1,6 +1,7 @@
 package syncer
 
 import (
+	"github.com/mgtv-tech/redis-GunYu/config"
 	"bytes"
 	"encoding/json"
 	"fmt"
@@ -36,6 +37,9 @@ type c13Scenario struct {
 	Snap       *c13Snap   `json:"snap,omitempty"` // nil: both links start from an empty snapshot (incremental phase only)
 	Preempt    bool       `json:"preempt,omitempty"`
 	Plan       []string   `json:"plan,omitempty"` // preemption plan over the wake-up statements of syncer/bisync.go
+	// Whitelist: both links run with a key prefix white list that every client key of the
+	// alphabet passes and none of the tool's bookkeeping keys does
+	Whitelist bool `json:"whitelist,omitempty"`
 }
 
 // c13Snap is the snapshot part of a scenario: what the sites hold when both links start.
@@ -379,6 +383,11 @@ func c13ExecPlan(t *testing.T, scn c13Scenario, ch *mc.Chooser) (res mc.Result, 
 			if scn.Snap == nil {
 				l.released = len(l.from.srv.ReplBytes())
 				l.s0 = 1000 + int64(l.released)
+				if scn.Whitelist {
+					biBootCfgHook = func(c *RedisOutputConfig) {
+						c.Filter = config.FilterConfig{KeyFilter: &config.FilterKeyConfig{PrefixKeyWhitelist: []string{"k", "t", "h", "user", "nokey"}}}
+					}
+				}
 				boot = biBoot(scn.Cfg, standaloneCfg(l.to.addr), l.from.name, l.from.runID, l.s0, true, l.to.srv)
 			} else {
 				sn := *scn.Snap
@@ -809,6 +818,20 @@ func runC13(t *testing.T, rep *mc.Reporter) {
 					scn := c13Scenario{Writes: ws, Cfg: m, WrapSingle: wrap, Snap: &sn}
 					mc.RunScenario(rep, scn, bound, budget, func(ch *mc.Chooser) mc.Result { return c13Exec(t, scn, ch) })
 				}
+			}
+		}
+	}
+	// ---- both links configured with a key prefix white list (client keys pass, bookkeeping keys do not)
+	wwrites := [][]c13Write{{{0, "set"}}, {{0, "txn"}}, {{0, "txn"}, {1, "set"}}, {{0, "hset"}, {1, "txn1"}}, {{0, "txnmarkerfirst"}}}
+	for _, ws := range wwrites {
+		for _, m := range modes {
+			for _, wrap := range []bool{false, true} {
+				idx++
+				if idx%nshards != shard || budget.Expired() {
+					continue
+				}
+				scn := c13Scenario{Writes: ws, Cfg: m, WrapSingle: wrap, Whitelist: true}
+				mc.RunScenario(rep, scn, bound, budget, func(ch *mc.Chooser) mc.Result { return c13Exec(t, scn, ch) })
 			}
 		}
 	}
